@@ -12,6 +12,11 @@ var reservedMethods = []string{
 	"Terminate", "UnregisterEvent", "Call", "CallID", "MethodID",
 	"ObjectID", "OnDisconnect", "PropertyID", "ProxyService",
 	"ServiceID", "SignalID", "Subscribe", "SubscribeID",
+	// the other methods of bus.ObjectProxy and of the generated
+	// proxy, which a specialized proxy embeds or declares itself.
+	"IsStatsEnabled", "EnableStats", "Stats", "ClearStats",
+	"IsTraceEnabled", "EnableTrace", "SubscribeTraceObject",
+	"Proxy", "WithContext",
 }
 
 var keywords = []string{
